@@ -45,6 +45,11 @@ CHECKS = {
    text="Generated-input search: 252 templates (6 decorations x 7 inner parsers x 6 surroundings: alone, followed, behind alternatives that left a pending error before / at / beyond the decorated failure, under or_not) x every string over {a,b,c} up to length 5 (quick) / 7 (thorough), plus 400k / 5M random C01/C02-class grammars with labelled / as_context / map_err / map_err_with_state at random nodes (validate emitters in half of them); the decorated and the undecorated grammar must agree on has_output, output, number of errors and every span, and the reported errors must carry exactly the labels / contexts / map_err markers the statement prescribes, with f invoked once per failure of its parser. Exploration within these bounds.",
    note="Trusted: the reference event log with label / map_err rules; V-label-success admits both readings; contexts after a merge are only required to be a subset (unspecified which survive); `found` of a labelled user-supplied error is unspecified. F6 (map_err dropped the pending error on success) was found by this check and fixed in /repo (d0236bb).",
    design="DESIGN.md section 4, C17"),
+ "C18": dict(
+   technique="property-based testing with a snapshot Inspector (count + hash of consumed tokens) observed at every node: oracle-free position-consistency check of every observation against a direct fold of the tokens before the node's own span end, plus differential comparison of all observations and the final state with a reference that threads state by position and with_state scope; &str, &[char] and Stream inputs; exhaustive templates x short strings + proptest-driven random tier",
+   text="Generated-input search: 16 templates (backtracking, lookahead, repetition fast/counted loops, fold_with callbacks, the three recovery strategies, with_state inside repetition / choice / nested) x every string over {a,b,c} up to length 6 (quick) / 8 (thorough) x 3 input kinds, plus 300k / 4M random C01/C02/C08-class grammars with every node wrapped in a state-reading map_with (select! and fold_with callbacks too); every observation must equal fold(S0, tokens before the current position), the caller's state after a successful parse_with_state / check_with_state must equal fold(S0, whole input), and with_state sub-parsers must start from a fresh copy on every invocation and leave the outer state untouched. Exploration within these bounds.",
+   note="Trusted: the node's own span end as 'current position' for the oracle-free part (C07 ties it to the consumed extent); the reference's scope bookkeeping for with_state. Pratt fold callbacks reading state are exercised in C09's module.",
+   design="DESIGN.md section 4, C18"),
 }
 
 NOT_YET = {}
